@@ -2338,7 +2338,8 @@ def rule_ndjson_lookahead(out, tier):
     for p in paths:
         calls = [e[1] for e in p.events if e[0] == "call"]
         had_look = any(l == "operator bool()" and v for l, v in p.lits)
-        looked_up = any(re.match(r"(at|operator\[\]|find|contains)\(%s\)" % re.escape(step), c) for c in calls)
+        # the entry is selected by the step's name: a lookup member, or a helper that receives the name (string building for messages is not a lookup)
+        looked_up = any(re.search(r"[(, ]%s[,)]" % re.escape(step), c) and not re.match(r"(operator\+|runtime_error|basic_string|to_string|append)", c) for c in calls)
         converted = any(re.search(r"\(%s\)$" % re.escape(val), c) and not c.startswith(("at(", "parse(")) for c in calls)
         parsed = any(c.startswith("parse(") for c in calls)
         reset = any(c == "reset()" for c in calls)
